@@ -142,7 +142,9 @@ func convertCondition(cond *gripql.HasCondition, not bool) bson.M {
 		}
 		expr = bson.M{"$nin": val}
 	case gripql.Condition_CONTAINS:
-		expr = bson.M{"$in": []interface{}{val}}
+		// the field is an array with an element equal to val ({"$in": [val]} would
+		// also select a scalar field that equals val)
+		expr = bson.M{"$elemMatch": bson.M{"$eq": val}}
 	default:
 		log.Error("unknown where condition type")
 	}
